@@ -228,6 +228,40 @@ def run_c01(ctx) -> Corr:
                     corr.violate("Gateway.listen yielded different field values", {"line": expected})
     asyncio.run(e2e_run())
     corr.count("end-to-end-sends", e2e)
+
+    # ... and the way an application reuses things: one Gateway per version for the whole run, ONE Message object whose
+    # fields are assigned before every send (and sent twice unchanged now and then).  What is written must be the
+    # encoding of the field values the object has at the moment of the send.
+    reused = 0
+
+    async def reuse_run():
+        nonlocal reused
+        gws = {}
+        for v in lib.VERSIONS:
+            tr = RecTransport([])
+            g = Gateway(tr)
+            g.protocol_version = v
+            gws[v] = (g, tr, Message(0, 0, 0, 0, 0, ""))
+        for k, (version, (n, c, cmd, ack, t), p, _) in enumerate(cases[: (600 if ctx.tier == "quick" else 6000)]):
+            g, tr, m = gws[version]
+            # successive cases differ in one or several fields: assign them one way or the other
+            m.node_id, m.child_id, m.command, m.ack, m.message_type, m.payload = n, c, cmd, ack, t, p
+            expected = f"{n};{c};{cmd};{ack};{t};{p}\n"
+            for _ in range(2 if k % 7 == 0 else 1):
+                tr.writes.clear()
+                try:
+                    await g.send(m)
+                except Exception as e:  # noqa: BLE001
+                    corr.violate("Gateway.send raised on a well-formed message (reused Gateway and Message objects)",
+                                 {"version": version, "fields": [n, c, cmd, ack, t], "payload": p, "exc": type(e).__name__})
+                    break
+                if tr.writes != [expected]:
+                    corr.violate("Gateway.send of a reused Message object wrote something other than the encoding of its current fields",
+                                 {"version": version, "fields": [n, c, cmd, ack, t], "payload": p, "writes": tr.writes[:3]})
+                    break
+            reused += 1
+    asyncio.run(reuse_run())
+    corr.count("sends-of-a-reused-message-object", reused)
     return corr
 
 
